@@ -88,6 +88,23 @@ def alloc_sites():
                             pm = re.search(r"\b%s\s*:\s*[^,)]+" % re.escape(ident), body[:body.find("{")] if "{" in body else body)
                             if pm:
                                 prov.append("param " + re.sub(r"\s+", " ", pm.group(0)))
+                    # guards: every `if` condition between the function head and the site that mentions a variable of
+                    # the size expression (a removed or weakened bound check changes the site's identity)
+                    guards = []
+                    for ident in sorted(set(re.findall(r"\b[a-z_][a-z0-9_]*\b", grp))):
+                        if ident in ("as", "usize", "mut", "unwrap_or", "len", "min", "max", "saturating_sub", "new", "u64", "buffer", "buf", "self"):
+                            continue
+                        for gm in re.finditer(r"\bif\s+([^{};]*\b%s\b[^{};]*)\{" % re.escape(ident), body):
+                            g = "if " + re.sub(r"\s+", " ", gm.group(1)).strip()
+                            if g not in guards:
+                                guards.append(g)
+                    if guards:
+                        prov.append("GUARD " + " ; ".join(guards))
+                        seen = set(re.findall(r"\b[a-z_][a-z0-9_]*\b", grp))
+                        for ident in sorted(set(re.findall(r"\b[a-z_][a-z0-9_]*\b", " ".join(guards))) - seen):
+                            lets = list(re.finditer(r"\blet\s+(?:mut\s+)?%s\b[^;]*;" % re.escape(ident), body))
+                            if lets and ident not in ("r", "length"):
+                                prov.append(re.sub(r"\s+", " ", lets[-1].group(0)))
                     # constants mentioned by the expression or its provenance
                     consts = []
                     for cname in sorted(set(re.findall(r"\b[A-Z][A-Z0-9_]{3,}\b", expr + " " + " ".join(prov)))):
